@@ -16,6 +16,9 @@ EXPLANATION = (
 EXPLANATION += (
     ' I6 every get_scope_of lookup during registration takes scope and identifier from the same item (a module: the scope being walked and its ident; a type: name.scope and name.ident), which is what lets the reviewed unwraps of I4 succeed for impl blocks that are not next to their type.'
 )
+EXPLANATION += (  # round-3 supplement
+    ' I7 declare_type looks earlier registrations up by TypeId alone, a hit is an error, the entry is added afterwards. I8 rust_type_to_roto_type maps each constructor to the Roto constructor of the same name with its components in order.'
+)
 ASSUMPTIONS = [
     "crate-internal generic signatures (Function::new_generic, pub(crate) unsafe) are well-formed: parse_sig/evaluate_type_expr unwraps are reachable only from there",
     "OutPtr is not exported, so HAS_OUT_PTR closures cannot be registered by downstream code",
